@@ -1,9 +1,10 @@
 use crate::engine::Check;
 
 pub mod c10;
+pub mod c14;
 
 pub fn all() -> Vec<Box<dyn Check>> {
-    vec![Box::new(c10::C10)]
+    vec![Box::new(c10::C10), Box::new(c14::C14)]
 }
 
 pub fn by_id(id: &str) -> Option<Box<dyn Check>> {
